@@ -15,7 +15,7 @@ for log in sorted(glob.glob(os.path.join(d, 'C*_*.log'))):
     if any(l.startswith('VIOLATION') for l in txt.split('\n')):
         print('VIOLATION in', log); bad += 1
     for f in kf:
-        if f['property_id'] != prop:
+        if f['property'] != prop:
             continue
         tag = '[%s]' % f['id']
         hit = any(tag in l for l in lines)
